@@ -26,6 +26,14 @@ def check(cx):
     conn = 'verif_controls::EagerConnectable' if cx.control else CONN
     # P-a
     n = 0
+    # the hub (subject) field of the connectable: the field that connect() passes as the observer of the source
+    hub = None
+    for fn0 in F.fns.values():
+        if fn0.get('name') == 'connect' and fn0.get('impl') and roles.impl_tag(cx, F.impls[fn0['impl']]) == conn:
+            g0 = cx.graph(fn0['key'])
+            for x in g0.nodes:
+                if x['kind'] in ('call', 'enter') and x['name'] == SUBSCRIBE and len(x['args']) > 1:
+                    hub = recv_class(x['args'][1])
     for im in sorted(F.impls.values(), key=lambda i: (i['file'], i['line'])):
         if roles.impl_tag(cx, im) != conn:
             continue
@@ -35,7 +43,7 @@ def check(cx):
                 continue
             n += 1
             g = cx.graph(fn['key'])
-            subs = [x for x in g.nodes if x['kind'] in ('call', 'enter') and x['name'] == SUBSCRIBE and x['args'] and not recv_class(x['args'][0]).endswith('.subject')]
+            subs = [x for x in g.nodes if x['kind'] in ('call', 'enter') and x['name'] == SUBSCRIBE and x['args'] and recv_class(x['args'][0]) != hub]
             if f['n'] == 'connect':
                 res.append(Finding(ID, 'P-a', cx.label(fn), len(subs) == 1, 'connect() subscribes the subject to the source' if len(subs) == 1 else 'connect() does not subscribe the source exactly once', fn['span']))
             else:
@@ -99,10 +107,16 @@ def pc(cx):
         fn = F.impl_fn(im, 'unsubscribe')
         g = cx.graph(fn['key'])
         label = cx.label(fn)
+        # the shared subject is the field whose type parameter is bounded by SubjectSize; the other one is the leaver's own subscription
+        sized = {F.tystr(p['self']) for p in im['preds'] if p['k'] == 'trait' and p['tr'] == 'subject::SubjectSize'}
+        adt = F.adts.get(F.adt_path(im['self']))
+        st = F.ty(F.strip_refs(im['self']))
+        amap = dict(zip(adt['generics'], [F.tystr(a) for a in st.get('a', [])]))
+        own = ['self.' + f['n'] for v in adt['variants'] for f in v['fields'] if F.ty(f['t'])['k'] == 'param' and amap.get(F.ty(f['t'])['n'], F.ty(f['t'])['n']) not in sized]
 
         def ev(x):
             if x['kind'] in ('call', 'enter'):
-                if x['name'] in UNSUB_NAMES and x['args'] and recv_class(x['args'][0]).endswith('.subscription'):
+                if x['name'] in UNSUB_NAMES and x['args'] and recv_class(x['args'][0]) in own:
                     return ('leave',)
                 if x['name'].endswith('::retain') and not x['ctx']:
                     return ('retain',)
@@ -129,9 +143,12 @@ def pc(cx):
                 sf = F.impl_fn(si, meth)
                 sg = cx.graph(sf['key'])
                 lists = set()
+                from . import c06
+                LIVE, WAIT = c06._lists(cx, stag)
                 for x in sg.nodes:
                     if x['kind'] == 'call' and x['name'] in ('rc::RcDeref::rc_deref', 'rc::RcDerefMut::rc_deref_mut') and x['args']:
-                        lists.add(recv_class(x['args'][0]).split('.')[-1])
+                        c = recv_class(x['args'][0]).split('.')[-1]
+                        lists.add('observers' if c == LIVE else ('chamber' if c == WAIT else c))
                 okl = {'observers', 'chamber'} <= lists
                 res.append(Finding(ID, 'P-d', cx.label(sf), okl, 'counts the live list and the waiting list' if okl else
                                    'the subject size ignores %s: a subscriber that joined since the last emission is not counted, so share() releases its source while that subscriber is still there' % sorted({'observers', 'chamber'} - lists),
